@@ -32,13 +32,15 @@ structure Inv (c : Caps) (s : H) : Prop where
   closed_eq : s.closed = s.cancelled
   main_live : (s.main = .loop ∨ s.main = .stuck) ↔ s.cancelled = false
   sender_gone : s.sender = false → s.cancelled = true
-  returned_clean : s.main = .returned → s.sender = false ∧ s.recv = .dead
+  returned_clean : s.main = .returned → s.sender = false ∧ s.recv = .dead ∧ (c.frameUnderLock = true ∨ s.pump = .dead)
+  held_old : s.frameHeld = true → c.frameUnderLock = true ∧ s.cancelled = false
+  pump_gone : s.pump = .dead → s.cancelled = true
 
 theorem Inv_init (c : Caps) : Inv c {} := by
   constructor <;> simp
 
 theorem Inv_step {c : Caps} {s s' : H} (h : Inv c s) (e : Ev) (hs : step c s e = some s') : Inv c s' := by
-  obtain ⟨i1, i2, i3, i4, i5, i6, i7, i8, i9⟩ := h
+  obtain ⟨i1, i2, i3, i4, i5, i6, i7, i8, i9, i10, i11⟩ := h
   cases e <;> simp only [step, report] at hs <;> (repeat' (split at hs)) <;>
     first
     | (cases hs; done)
@@ -59,7 +61,8 @@ theorem Inv_run {c : Caps} : ∀ (es : List Ev) (s : H), Inv c s → Inv c (run 
     run exactly once, and both goroutines are gone, when `websocket.Handle` has returned. -/
 theorem C08_once (c : Caps) (es : List Ev) :
     (run c {} es).handled ≤ 1 ∧
-    ((run c {} es).main = .returned → (run c {} es).handled = 1 ∧ (run c {} es).sender = false ∧ (run c {} es).recv = .dead) := by
+    ((run c {} es).main = .returned → (run c {} es).handled = 1 ∧ (run c {} es).sender = false ∧ (run c {} es).recv = .dead ∧
+      (c.frameUnderLock = true ∨ (run c {} es).pump = .dead)) := by
   have h := Inv_run es {} (Inv_init c)
   refine ⟨h.once, fun hr => ?_⟩
   have hc : (run c {} es).cancelled = true := by
@@ -68,20 +71,24 @@ theorem C08_once (c : Caps) (es : List Ev) :
     | false =>
       have := h.main_live.mpr hcc
       rcases this with h1 | h1 <;> rw [hr] at h1 <;> cases h1
-  exact ⟨h.cancel_iff.mp hc, (h.returned_clean hr).1, (h.returned_clean hr).2⟩
+  exact ⟨h.cancel_iff.mp hc, (h.returned_clean hr).1, (h.returned_clean hr).2.1, (h.returned_clean hr).2.2⟩
 
 /-- **C08, reporting never blocks.** With the non-blocking report no schedule ever leaves the main loop blocked
     on its own cause channel. -/
-theorem C08_never_stuck (es : List Ev) : (run good {} es).main ≠ .stuck := by
-  have one : ∀ (s s' : H) (e : Ev), s.main ≠ .stuck → step good s e = some s' → s'.main ≠ .stuck := by
+theorem C08_never_stuck (es : List Ev) : (run good {} es).main ≠ .stuck ∧ (run good {} es).frameHeld = false := by
+  have one : ∀ (s s' : H) (e : Ev), s.main ≠ .stuck ∧ s.frameHeld = false → step good s e = some s' →
+      s'.main ≠ .stuck ∧ s'.frameHeld = false := by
     intro s s' e h hs
     have hb : good.blockingReport = false := rfl
-    generalize good = c at hs hb
-    cases e <;> simp only [step, report, hb, Bool.false_eq_true, false_and, if_false] at hs <;> (repeat' (split at hs)) <;>
+    have hf : good.frameUnderLock = false := rfl
+    obtain ⟨h1, h2⟩ := h
+    generalize good = c at hs hb hf
+    cases e <;> simp only [step, report, hb, hf, h2, Bool.false_eq_true, false_and, if_false] at hs <;> (repeat' (split at hs)) <;>
       first
       | (cases hs; done)
-      | (simp only [Option.some.injEq] at hs; subst hs; first | exact h | (intro hh; cases hh) | simp_all)
-  have key : ∀ (es : List Ev) (s : H), s.main ≠ .stuck → (run good s es).main ≠ .stuck := by
+      | (simp only [Option.some.injEq] at hs; subst hs; first | exact ⟨h1, h2⟩ | exact ⟨fun hh => by cases hh, h2⟩ | simp_all)
+  have key : ∀ (es : List Ev) (s : H), s.main ≠ .stuck ∧ s.frameHeld = false →
+      (run good s es).main ≠ .stuck ∧ (run good s es).frameHeld = false := by
     intro es
     induction es with
     | nil => intro s h; exact h
@@ -95,7 +102,14 @@ theorem C08_never_stuck (es : List Ev) : (run good {} es).main ≠ .stuck := by
 
 /-- a pending cause can always be taken by the main loop -/
 theorem C08_cause_taken (c : Caps) (s : H) (hm : s.main = .loop) (hd : 0 < s.dq) : (step c s .takeCause).isSome = true := by
-  simp [step, hm, hd]
+  simp only [step, hm, hd, and_self, if_true]; split <;> rfl
+
+/-- ... and taking it runs `handleDisconnect` to its end: leaving the session never waits for the session's frame worker,
+    because that worker never waits for this connection (finding F15 was the opposite) -/
+theorem C08_cause_handled (es : List Ev) (hm : (run good {} es).main = .loop) (hd : 0 < (run good {} es).dq) :
+    ∃ s', step good (run good {} es) .takeCause = some s' ∧ s'.handled = (run good {} es).handled + 1 ∧ s'.main = .winding := by
+  have hf := (C08_never_stuck es).2
+  simp [step, hm, hd, hf]
 
 /-- **The original code wedges (finding F6).** With a blocking report, nine failing requests taken in a row leave the
     main loop blocked on its own full channel, and from there nothing any goroutine or the client does moves it:
@@ -127,6 +141,43 @@ theorem C08_old_code_wedges :
           | (simp only [Option.some.injEq] at hs; subst hs; simp_all)
   exact fun es => key es _ h0
 
+/-- **The code before the repair of F15 wedges a whole session.** A client that is not being served fast enough fills its
+    scheduler queue (256 messages); at the next frame the session's frame worker, holding the session's frame lock, blocks
+    handing that connection its pending update; the client goes away; `handleDisconnect` then needs the frame lock to
+    leave the session: the main loop and the session's frame worker wait for each other for ever, whatever happens next -
+    `handleDisconnect` never completes, `Handle` never returns, and the frame worker (hence every member's pose relay)
+    never moves again. -/
+theorem C08_old_frame_lock_wedges :
+    let old : Caps := { frameUnderLock := true }
+    let flood := (List.replicate 256 [Ev.arrive, Ev.dispatch]).flatten ++ [Ev.frame, Ev.readFails, Ev.takeCause]
+    ∀ (es : List Ev), (run old (run old {} flood) es).main = .stuck ∧ (run old (run old {} flood) es).handled = 0 ∧
+      (run old (run old {} flood) es).frameHeld = true := by
+  intro old flood
+  have h0 : (run old {} flood).main = .stuck ∧ (run old {} flood).handled = 0 ∧ (run old {} flood).frameHeld = true ∧
+      (run old {} flood).mq = old.mq := by decide +kernel
+  have key : ∀ (es : List Ev) (s : H), (s.main = .stuck ∧ s.handled = 0 ∧ s.frameHeld = true ∧ s.mq = old.mq) →
+      (run old s es).main = .stuck ∧ (run old s es).handled = 0 ∧ (run old s es).frameHeld = true ∧ (run old s es).mq = old.mq := by
+    intro es
+    induction es with
+    | nil => intro s h; exact h
+    | cons e es ih =>
+      intro s h
+      simp only [run]
+      cases hs : step old s e with
+      | none => simpa [hs] using ih s h
+      | some s' =>
+        simp only [hs, Option.getD_some]
+        apply ih
+        obtain ⟨h1, h2, h3, h4⟩ := h
+        have hu : old.frameUnderLock = true := rfl
+        cases e <;> simp only [step, report, hu, h3, h4] at hs <;> (repeat' (split at hs)) <;>
+          first
+          | (cases hs; done)
+          | (simp only [Option.some.injEq] at hs; subst hs; simp_all)
+  intro es
+  have := key es _ h0
+  exact ⟨this.1, this.2.1, this.2.2.1⟩
+
 /-- **C08, the send queue moves.** Whenever the connection is live, a full send queue can be relieved by the sender
     goroutine: it writes, or fails, or - after a failed write - drops; it never just goes away. -/
 theorem C08_send_progress (c : Caps) (s : H) (hI : Inv c s) (hlive : s.cancelled = false) (hq : 0 < s.sendq) :
@@ -154,19 +205,29 @@ theorem C08_shutdown_progress (c : Caps) (hcap : 0 < c.mq) (s : H) (hI : Inv c s
   | false =>
     cases hr : s.recv with
     | reading => exact ⟨.recvExit, rfl, by simp [step, hr, hc]⟩
-    | dead => exact ⟨.finish, rfl, by simp [step, hw, hs, hr]⟩
+    | dead =>
+      by_cases hu : c.frameUnderLock = true
+      · exact ⟨.finish, rfl, by simp [step, hw, hs, hr, hu]⟩
+      · have hu' : c.frameUnderLock = false := by simpa using hu
+        cases hp : s.pump with
+        | dead => exact ⟨.finish, rfl, by simp [step, hw, hs, hr, hp]⟩
+        | waiting => exact ⟨.pumpExit, rfl, by simp [step, hu', hp, hc]⟩
+        | pushing =>
+          by_cases hq : s.mq < c.mq
+          · exact ⟨.pumpPush, rfl, by simp [step, hu', hp, hq]⟩
+          · have : 0 < s.mq := by have := hI.mq_le; omega
+            exact ⟨.drain, rfl, by simp [step, hw, this]⟩
     | holding =>
       by_cases hq : s.mq < c.mq
       · exact ⟨.dispatch, rfl, by simp [step, hr, hq]⟩
       · have : 0 < s.mq := by have := hI.mq_le; omega
-        by_cases h0 : 0 < s.mq
-        · exact ⟨.drain, rfl, by simp [step, hw, h0]⟩
-        · exact absurd this h0
+        exact ⟨.drain, rfl, by simp [step, hw, this]⟩
 
 /-- what is left to do in a shutdown -/
 def rank (s : H) : Nat :=
   (if s.main = .returned then 0 else 1) + (if s.sender then 1 else 0) +
-  (match s.recv with | .holding => 3 | .reading => 1 | .dead => 0) + s.mq + s.sendq
+  (match s.recv with | .holding => 3 | .reading => 1 | .dead => 0) +
+  (match s.pump with | .pushing => 3 | .waiting => 1 | .dead => 0) + s.mq + s.sendq
 
 /-- **C08, shutdown ends.** After a cause has been taken every enabled event - of the handler or of the client -
     strictly decreases `rank`: no run of the shutdown is infinite.  With `C08_shutdown_progress` every maximal run
@@ -176,7 +237,11 @@ theorem C08_shutdown_decreases (c : Caps) (s s' : H) (hI : Inv c s) (hc : s.canc
   have hcl : s.closed = true := by rw [hI.closed_eq, hc]
   have hmain : s.main ≠ .loop := by
     intro h; have := hI.main_live.mp (Or.inl h); rw [hc] at this; cases this
-  cases e <;> simp only [step, report] at hs <;> (repeat' (split at hs)) <;>
+  have hheld : s.frameHeld = false := by
+    cases hh : s.frameHeld with
+    | false => rfl
+    | true => have := (hI.held_old hh).2; rw [hc] at this; cases this
+  cases e <;> simp only [step, report, hheld] at hs <;> (repeat' (split at hs)) <;>
     first
     | (cases hs; done)
     | (simp only [Option.some.injEq] at hs; subst hs; simp_all [rank] <;> (try (repeat' split)) <;> omega)
